@@ -248,10 +248,11 @@ pub fn real_e0(y: u8, u: &Unimock, x: u8) -> u64 {
 // ---------------------------------------------------------------------------------------------
 // async (C16)
 
-#[unimock(api = AsyncAMock, unmock_with = [real_af, _])]
+#[unimock(api = AsyncAMock, unmock_with = [real_af, _, _])]
 pub trait AsyncA {
     async fn af(&self, x: u8) -> u64;
     async fn ag(&self, x: u8) -> u64;
+    fn ai(&self, x: u8) -> impl std::future::Future<Output = u64> + Send;
 }
 
 pub async fn real_af(u: &Unimock, x: u8) -> u64 {
@@ -465,6 +466,7 @@ pub fn dispatch_ref(u: &Unimock, m: M, x: u8, y: u8) -> u64 {
         M::Z0 => u.z0(),
         M::Af => crate::exec::block_on(u.af(x)),
         M::Ag => crate::exec::block_on(u.ag(x)),
+        M::Ai => crate::exec::block_on(u.ai(x)),
         M::At => crate::exec::block_on(u.at(x)),
         other => panic!("{other:?} needs exclusive access"),
     }
@@ -510,6 +512,7 @@ pub fn async_call<'a>(u: &'a Unimock, m: M, x: u8) -> crate::exec::BoxFut<'a> {
     match m {
         M::Af => Box::pin(u.af(x)),
         M::Ag => Box::pin(u.ag(x)),
+        M::Ai => Box::pin(u.ai(x)),
         M::At => u.at(x),
         other => panic!("{other:?} is not async"),
     }
@@ -596,6 +599,7 @@ pub fn type_ids() -> &'static Vec<(TypeId, M)> {
             (TypeId::of::<OwnMock::own_opt_multi>(), M::OwnOptMulti),
             (TypeId::of::<AsyncAMock::af>(), M::Af),
             (TypeId::of::<AsyncAMock::ag>(), M::Ag),
+            (TypeId::of::<AsyncAMock::ai>(), M::Ai),
             (TypeId::of::<AsyncTMock::at>(), M::At),
             (tid_of(&GenMock::g.with_types::<u8>()), M::GenU8),
             (tid_of(&GenMock::g.with_types::<u16>()), M::GenU16),
